@@ -21,23 +21,23 @@ def declOf (s : Str) : Decl :=
 
 /-- one field per USE statement (the statement text as FORD's reader yields it);
     statements USE_RE does not match are not recorded by FORD -/
-def takeUses : Nat → List Str → List UseA × List Str
+def takeUses (fixed : Bool) : Nat → List Str → List UseA × List Str
   | 0, fs => ([], fs)
   | n + 1, line :: fs =>
-    let (us, rest) := takeUses n fs
+    let (us, rest) := takeUses fixed n fs
     match parseUseStmt line with
-    | some (m, r) => (mkUse m r :: us, rest)
+    | some (m, r) => (mkUse m r fixed :: us, rest)
     | none => (us, rest)
   | _ + 1, [] => ([], [])
 
 /-- scopes: name, flags, pubNames, privNames, decls, nUses, statement* -/
-def parseScopes : Nat → List Str → List Scope
+def parseScopes (fixed : Bool) : Nat → List Str → List Scope
   | 0, _ => []
   | fuel + 1, name :: flags :: pubs :: privs :: decls :: nu :: fs =>
-    let (us, rest) := takeUses (natOf nu) fs
+    let (us, rest) := takeUses fixed (natOf nu) fs
     { name := name, isMod := flags.contains 'M', defPub := flags.contains 'U',
       pubNames := words pubs, privNames := words privs,
-      decls := (words decls).map declOf, uses := us } :: parseScopes fuel rest
+      decls := (words decls).map declOf, uses := us } :: parseScopes fixed fuel rest
   | _ + 1, _ => []
 
 def showEntry (p : Str × Ent) : Str := p.1 ++ ['='] ++ p.2.1 ++ ['.'] ++ p.2.2
@@ -58,10 +58,11 @@ open C06D
 
 def dispatchC06 : List Str → Option (List Str)
   | cmd :: args =>
-    if cmd == "c06.run".toList then
+    if cmd == "c06.run".toList || cmd == "c06.runfixed".toList then
+      -- c06.run / c06.runfixed (variant after fixes/C06-rename-without-only.diff)
       match args with
       | order :: fs =>
-        let g := parseScopes (fs.length + 1) fs
+        let g := parseScopes (cmd == "c06.runfixed".toList) (fs.length + 1) fs
         let o := words order
         some ("ok".toList :: ([0, 1, 2, 3].flatMap (fun k => showState g k (run k g o))))
       | _ => some ["bad-request".toList]
@@ -84,12 +85,12 @@ def dispatchC06 : List Str → Option (List Str)
       match args with
       | [s] => some (match parseUseStmt s with | some (a, b) => ["ok".toList, a, b] | none => ["ok".toList])
       | _ => some ["bad-request".toList]
-    else if cmd == "c06.used".toList then
+    else if cmd == "c06.used".toList || cmd == "c06.usedfixed".toList then
       -- c06.used <rest> <pub names, space separated> : resulting (local=remote) pairs
       match args with
       | [rest, names] =>
         let pub : Table := (words names).map (fun n => (n, (['m'], n)))
-        let t := getUsed (mkUse ['m'] rest) pub
+        let t := getUsed (mkUse ['m'] rest (cmd == "c06.usedfixed".toList)) pub
         some ("ok".toList :: t.map (fun p => p.1 ++ ['='] ++ p.2.2))
       | _ => some ["bad-request".toList]
     else none
